@@ -903,6 +903,8 @@ def getattr_(it, obj, name):
             if isinstance(v, Unresolved):
                 raise Unsupported('module attribute %s.%s could not be evaluated: %s' % (obj.name, name, v.why))
             return v
+        if getattr(obj, 'relpath', None):
+            raise Unsupported('repository module %s has no attribute %s (circular import?)' % (obj.name, name))
         return external_attr(it, obj, name)
     if isinstance(obj, Instance):
         if name in obj.attrs:
